@@ -232,6 +232,27 @@ fn collect_flow_count_flags_from_nodes(nodes: &[Node], targets: &mut BTreeMap<St
                         collect_flow_count_flags_from_expr(e, targets);
                     }
                 }
+                // The texts of a choice are kept as source text and tokenized at emission.
+                for text in [
+                    Some(&choice.start_text),
+                    Some(&choice.choice_only_text),
+                    choice.selected_text.as_ref(),
+                ]
+                .into_iter()
+                .flatten()
+                {
+                    if let Ok(nodes) = tokenize_inline_content(text) {
+                        collect_flow_count_flags_from_nodes(&nodes, targets);
+                    }
+                }
+                for tag in choice
+                    .start_tags
+                    .iter()
+                    .chain(&choice.choice_only_tags)
+                    .chain(&choice.selected_tags)
+                {
+                    collect_flow_count_flags_from_dynamic_string(tag, targets);
+                }
                 collect_flow_count_flags_from_nodes(&choice.body, targets);
             }
             Node::Conditional {
@@ -262,6 +283,25 @@ fn collect_flow_count_flags_from_nodes(nodes: &[Node], targets: &mut BTreeMap<St
             Node::ReturnExpr(e) => {
                 collect_flow_count_flags_from_expr(e, targets);
             }
+            Node::Sequence(sequence) => {
+                for branch in &sequence.branches {
+                    collect_flow_count_flags_from_nodes(branch, targets);
+                }
+            }
+            Node::Tag(tag) => {
+                collect_flow_count_flags_from_dynamic_string(tag, targets);
+            }
+            Node::Divert(Divert { arguments, .. })
+            | Node::ThreadDivert(Divert { arguments, .. }) => {
+                for arg in arguments {
+                    collect_flow_count_flags_from_expr(arg, targets);
+                }
+            }
+            Node::TunnelDivert { args, .. } | Node::TunnelOnwardsWithTarget { args, .. } => {
+                for arg in args {
+                    collect_flow_count_flags_from_expr(arg, targets);
+                }
+            }
             Node::VoidCall { args, .. } => {
                 for arg in args {
                     if let Expression::DivertTarget(target) = arg {
@@ -272,6 +312,25 @@ fn collect_flow_count_flags_from_nodes(nodes: &[Node], targets: &mut BTreeMap<St
                 }
             }
             _ => {}
+        }
+    }
+}
+
+fn collect_flow_count_flags_from_dynamic_string(
+    dynamic: &DynamicString,
+    targets: &mut BTreeMap<String, i32>,
+) {
+    for part in &dynamic.parts {
+        match part {
+            DynamicStringPart::Text(_) => {}
+            DynamicStringPart::Expression(expr) => {
+                collect_flow_count_flags_from_expr(expr, targets);
+            }
+            DynamicStringPart::Sequence(sequence) => {
+                for branch in &sequence.branches {
+                    collect_flow_count_flags_from_nodes(branch, targets);
+                }
+            }
         }
     }
 }
